@@ -298,7 +298,7 @@ func lsmEnabled(x *seqExec) []string {
 		ops = append(ops, "P")
 	}
 	if x.j.Bool("bulk", false) {
-		ops = append(ops, "U")
+		ops = append(ops, "U", "Ux")
 	}
 	if x.j.Bool("big", false) {
 		ops = append(ops, "B"+st.keys[0])
@@ -350,6 +350,9 @@ func lsmEnabled(x *seqExec) []string {
 		if !st.opts.InMemory {
 			ops = append(ops, "RC")
 		}
+		if x.j.Bool("rebase", false) {
+			ops = append(ops, "RB") // re-open with a much larger / the original BaseLevelSize
+		}
 	}
 	if x.j.Bool("closecompact", false) {
 		ops = append(ops, "CX")
@@ -357,6 +360,9 @@ func lsmEnabled(x *seqExec) []string {
 	if x.j.Bool("drops", false) && len(st.snaps) == 0 && len(st.held) == 0 {
 		// Y<prefix,...> = DropPrefix, V = DropAll (documented: not while reads are in progress)
 		ops = append(ops, "Yp1", "Yp", "Yp1,q", "Yp1,p2", "Yp1a,p1", "Yp1a,qq", "Yzz", "V")
+		if x.j.Bool("bulk", false) {
+			ops = append(ops, "Yx", "Yf") // the filler keys of U / Ux
+		}
 	}
 	if only := x.j.Str("ops", ""); only != "" {
 		allow := map[string]bool{}
@@ -635,6 +641,14 @@ func lsmApply(x *seqExec, op string) bool {
 			panic(fmt.Sprintf("close: %v", err))
 		}
 		x.db = nil
+		if op == "RB" {
+			// re-open with another compaction setting: the base level is computed from BaseLevelSize
+			if st.opts.BaseLevelSize < 1<<20 {
+				st.opts.BaseLevelSize = 1 << 20
+			} else {
+				st.opts.BaseLevelSize = int64(x.j.Int("base_level_size", 600))
+			}
+		}
 		if op == "RC" {
 			// re-open with another compression setting: existing tables keep the one recorded for them
 			if st.opts.Compression == options.None {
@@ -952,6 +966,9 @@ func lsmKey(x *seqExec) string {
 		dpos = int(st.discard)
 	}
 	fmt.Fprintf(&b, "D%d|", dpos)
+	if st.opts.BaseLevelSize >= 1<<20 {
+		b.WriteString("bigbase|")
+	}
 	for _, sn := range st.snaps {
 		fmt.Fprintf(&b, "snap%d,", sort.Search(len(vs), func(i int) bool { return vs[i] > sn.ReadTs() }))
 	}
